@@ -120,6 +120,43 @@ func init() {
 				o := V5Opts{NegIdx: c.R.Intn(2) == 0, EscapeHTML: c.R.Intn(2) == 0, EnsurePath: c.R.Intn(8) == 0}
 				c05Apply(c, GenSeq(c.R, seqCfg, o.Ref()), o)
 			}},
+			{Name: "copies-of-large-values-then-edits", Count: n(8000, 240000), Run: func(c *core.Ctx, idx int) {
+				// a document spelled exactly as the encoder spells it (no whitespace, canonical escapes) holding a value
+				// of a kilobyte or more; it is copied, then something inside the source or inside the copy is edited:
+				// the other one must keep its members, their order and its literals
+				esc := c.R.Intn(2) == 0
+				ep := prof.With(func(p *gen.Profile) {
+					p.WS = 0
+					p.Spell = gen.SpellEncOff
+					if esc {
+						p.Spell = gen.SpellEncOn
+					}
+					p.Wide = 400
+					p.Width = 5
+				})
+				o := V5Opts{NegIdx: true, EscapeHTML: esc}
+				sc := &SeqCase{Opts: o.Ref()}
+				sc.DocText = `{"big":` + ep.Object(c.R, 2) + `,"big2":` + ep.Array(c.R, 2) + `,"k":1}`
+				sc.Doc = mustParse(sc.DocText)
+				e := ref.New(sc.Doc, o.Ref())
+				src := []string{"/big", "/big2"}[c.R.Intn(2)]
+				push := func(op ref.Op, text string) {
+					sc.Ops = append(sc.Ops, op)
+					sc.OpTexts = append(sc.OpTexts, text)
+					snap := e.Root.Clone()
+					if e.Step(op) != ref.OK {
+						e.Root = snap
+					}
+				}
+				push(ref.Op{Kind: "copy", From: src, Path: "/cp"}, OpText("copy", "/cp", src, "", false))
+				cfg := &SeqCfg{Prof: ep.With(func(p *gen.Profile) { p.Wide = 0 }), MissRate: 0, RootOK: false, Kinds: []string{"add", "remove", "replace", "move"}}
+				for k := 1 + c.R.Intn(4); k > 0; k-- {
+					op, text := GenOp(c.R, e, cfg)
+					push(op, text)
+				}
+				c05Apply(c, sc, o)
+				c.Count("large-copies:cases")
+			}},
 			{Name: "ensure-through-null-members", Count: n(10000, 300000), Run: func(c *core.Ctx, idx int) {
 				// EnsurePathExistsOnAdd through object members whose value is null: the member is given a
 				// container as its value (add on an existing member) and must keep its place among its siblings
